@@ -117,9 +117,34 @@ def _validate_one(args):
     shutil.rmtree(md, ignore_errors=True)
     return {"trace": trace, "rc": rc, "accepted": accepted, "rejected": rejected, "error": err, "out": out}
 
-def validate_traces(module, cfg, traces, wd):
+def split_trace(path, chunk):
+    """Split a trace file into pieces of about `chunk` events, cutting only where a behaviour starts
+    (TLC's cost per step grows with the state it carries along a file, so very long files are slow).
+    State that a trace specification carries across behaviours (memo tables) is then per piece."""
+    pieces, cur, n = [], None, 0
+    with open(path) as f:
+        for line in f:
+            boundary = '"ev":"reset"' in line or '"ev":"dtree"' in line
+            if cur is None or (boundary and n >= chunk):
+                if cur is not None:
+                    cur.close()
+                name = f"{path}.part{len(pieces)}.ndjson"
+                pieces.append(name)
+                cur, n = open(name, "w"), 0
+            cur.write(line)
+            n += 1
+    if cur is not None:
+        cur.close()
+    return pieces
+
+def validate_traces(module, cfg, traces, wd, chunk=None):
     """Validate each trace file with its own TLC (single worker) in parallel."""
     traces = [t for t in traces if os.path.getsize(t) > 0]
+    if chunk:
+        parts = []
+        for t in traces:
+            parts += split_trace(t, chunk) if count_lines(t) > chunk * 3 // 2 else [t]
+        traces = parts
     jobs = [(module, cfg, t, f"{wd}/tmd_{i}") for i, t in enumerate(traces)]
     results = []
     with concurrent.futures.ThreadPoolExecutor(max_workers=min(NCPU, 16)) as ex:
